@@ -39,7 +39,8 @@ def apply_edits(root, edits):
                 s.count(old), old[:50], rel)
         s = s.replace(old, new)
         try:
-            compile(s, path, 'exec')
+            if path.endswith('.py'):
+                compile(s, path, 'exec')
         except SyntaxError as e:
             return 'variant does not compile: %s' % e
         with open(path, 'w') as f:
